@@ -215,6 +215,26 @@ func init() {
 				break
 			}
 		}
+		// C19: the header order is the Fisher-Yates arrangement of the caller's order under the drawn
+		// randomness; each recipient's position found with the reference receiver
+		if len(pks) > 1 {
+			var pos []int
+			for i := range pks {
+				refHeaderOnly = true
+				ro, re := refOpenEnc(out, rsks[i])
+				refHeaderOnly = false
+				if re != nil {
+					pos = nil
+					break
+				}
+				pos = append(pos, ro.rcptIndex)
+			}
+			if pos != nil {
+				if f := shuffleOrderFailure("recipient-order-not-fisher-yates", rng, pos); f != nil {
+					fs = append(fs, *f)
+				}
+			}
+		}
 		// C19: identities on the wire
 		if senderPk != nil {
 			vis := false
